@@ -33,9 +33,12 @@ META = dict(
          "covers IndexError only while found_arity is still False: indexError_after_found_becomes_parseException "
          "proves the property FALSE afterwards (known finding indexerror_after_arity_found). The call-line "
          "arithmetic (LINE_DIFF) is a generated-fact obligation (live_call_line). Gating: in the mini expression "
-         "language (Or two passes, Each, SkipTo scan + fail_on, stop_on, NotAny/FollowedBy, Opt, ZeroOrMore) "
-         "no_actions_when_trying proves by induction that do_actions=False without call_during_try fires no action, "
-         "with corollaries for each construct.",
+         "language (Or two passes, Each, SkipTo scan + fail_on, stop_on, NotAny/FollowedBy, Opt, ZeroOrMore, And, "
+         "MatchFirst) fired_ids_firable proves by induction for all expressions/inputs that an action fires only "
+         "where do_actions is on or its element has call_during_try (trial-matched positions count as off), hence "
+         "no_actions_when_trying, or_/each_first_pass_fires_nothing, skipTo_scan_fires_nothing, "
+         "skipTo_without_include_is_silent, stop_on_check_fires_nothing; action_loc_is_prestart_partial only states "
+         "that the loc argument is the element's pre_loc (whitespace skipping itself is by transcription).",
     note="Trusted: Lean kernel; axioms propext/Classical.choice/Quot.sound; CPython traceback frame layout (a binding "
          "failure raises at the call line with no callee frame; a Python-level body contributes its own frame) is an "
          "assumption of the model checked only differentially; the TrimArity and ActionGate models are transcriptions "
@@ -60,6 +63,15 @@ THEOREMS = [
     "PP.TrimArity.indexError_after_found_becomes_parseException",
     "PP.TrimArity.return_value_protocol",
     "PP.TrimArity.condition_protocol",
+    "PP.ActionGate.fired_ids_firable",
+    "PP.ActionGate.no_actions_when_trying",
+    "PP.ActionGate.or_first_pass_fires_nothing",
+    "PP.ActionGate.each_first_pass_fires_nothing",
+    "PP.ActionGate.skipTo_scan_fires_nothing",
+    "PP.ActionGate.skipTo_without_include_is_silent",
+    "PP.ActionGate.stop_on_check_fires_nothing",
+    "PP.ActionGate.or_each_skipto_stopon_fire_only_real",
+    "PP.ActionGate.action_loc_is_prestart_partial",
 ]
 
 SIG_INDEX = "indexerror_after_arity_found"
@@ -1002,7 +1014,8 @@ def run(ctx):
     cfg = cfg_sexp(facts)
     ctx.notes["live_facts"] = {k: (str(v) if k.endswith("file") else v) for k, v in facts.items()}
     ok = ctx.proof_leg("PPProofs.Props.C13", THEOREMS,
-                       generated={"PPProofs/Props/Gen/TrimArity.lean": gen_lean(facts)})
+                       generated={"PPProofs/Props/Gen/TrimArity.lean": gen_lean(facts)},
+                       extra_modules=("PPProofs.Props.C13Gate",))
     ctx.obligation("generated fact: pa_call_line_synth == (file, line) of the frame calling the action "
                    "(consumed by PP.TrimArity.live_call_line)",
                    facts["synth_file"] == facts["call_file"] and facts["synth_line"] == facts["call_line"]
